@@ -165,7 +165,10 @@ impl World {
             timestamp: 0,
             network_id: [0; 32],
             base_reserve: 0,
-            min_persistent_entry_ttl: 4096,
+            // persistent and instance entries live at least ~173 days from their last write, as on
+            // the public network (where the minimum is 120 days); temporary entries 16 ledgers.
+            // Scenarios may therefore let ~64 days pass without any persistent entry being archived.
+            min_persistent_entry_ttl: 3_000_000,
             min_temp_entry_ttl: 16,
             max_entry_ttl: 6_312_000,
         });
